@@ -62,13 +62,16 @@ pub struct Gen {
     pub phase: u32,
     pub fresh_key: u64,
     pub target_buckets: usize,
+    /// profile name (a generator may serve several profiles)
+    pub variant: &'static str,
+    pub flipped: bool,
 }
 
 impl Gen {
     pub fn new(seed: u64, universe: u64, profile: &'static str) -> Self {
         let mut rng = Rng::new(seed);
         let target_buckets = *rng.pick(&[16usize, 16, 32, 32, 64, 128]);
-        Gen { rng, universe, next_id: 1, profile, phase: 0, fresh_key: 0, target_buckets }
+        Gen { rng, universe, next_id: 1, profile, phase: 0, fresh_key: 0, target_buckets, variant: profile, flipped: false }
     }
     pub fn id(&mut self) -> u64 {
         let i = self.next_id;
@@ -303,6 +306,12 @@ impl Gen {
                     }
                 }
             }
+            2 if self.variant == "broken-sat" && !self.flipped => {
+                // tombstone-saturated table built lawfully; from here on Hash answers differently on
+                // every call, so the in-place rehash relocates elements arbitrarily
+                self.flipped = true;
+                format!("env hash=mix:{}", self.rng.below(1 << 30))
+            }
             2 if d.growth_left == 0 && self.rng.chance(1, 4) => {
                 // capacity()==len() with tombstones: the state where shrink_to must not trust capacity()
                 self.phase = 3;
@@ -322,6 +331,11 @@ impl Gen {
                 format!("a {}", self.insert(k % self.universe))
             }
             _ => {
+                if self.flipped {
+                    self.flipped = false;
+                    self.phase = 0;
+                    return "env hash=plan".to_string();
+                }
                 if self.rng.chance(1, 12) {
                     self.phase = 0;
                 }
